@@ -3,7 +3,7 @@
 From Coq Require Import List ZArith Bool QArith Qcanon.
 From GL Require Import Lib.Arr Lib.Keyed Model.Dom Model.Scalar Model.Reduce Model.GroupByApi Model.Select
   Model.Cumulative Model.Rolling Model.Ema Spec.Defs Spec.RowSpec
-  Proofs.ReduceBlocks Proofs.ReduceSpec Proofs.RowGeneric Proofs.SelectProofs Proofs.NullKeys.
+  Proofs.ReduceBlocks Proofs.ReduceSpec Proofs.RowGeneric Proofs.SelectProofs Proofs.NullKeys Model.Factorize Proofs.CombineProofs Proofs.ChunkedKeys.
 Import ListNotations.
 Open Scope Z_scope.
 
@@ -105,3 +105,15 @@ Example C06_example :
   cumulative fops CSum true [0; -1; 0; 1; -1] (map fl_of_Z [1; 100; 2; 5; 100]) 2 None
   = [fl_of_Z 1; FNan; fl_of_Z 3; fl_of_Z 5; FNan].
 Proof. vm_compute; reflexivity. Qed.
+
+(* several keys: a row's combined key is the null code exactly when one of its component codes is null
+   (so a null in ANY key position removes the row from every group); chunk-local codes keep the null code
+   through pointer unification *)
+Theorem C06_multi_key_null shape rows : shape <> [] -> Forall (row_ok shape) rows ->
+  Forall2 (fun row c => c = -1 <-> In (-1) row) rows
+          (fst (combine_factorizations rows (code_weights shape) (Z.to_nat (prod shape)))).
+Proof. exact (multi_key_null_iff shape rows). Qed.
+Theorem C06_unify_keeps_null p k : k < 0 -> unify_code p k = -1.
+Proof. exact (unify_code_null p k). Qed.
+Print Assumptions C06_multi_key_null.
+Print Assumptions C06_unify_keeps_null.
